@@ -34,6 +34,7 @@ type botRunner struct {
 	isHumanized                    bool
 	curGameID                      string
 	lastGameStateTime              int64
+	lastUpdateSerial               int64
 	timebank                       *timebank.TimeBank
 	tableInfo                      *pokertable.Table
 	onTableGameWagerActionUpdated  TableGameWagerActionUpdatedFunc
@@ -69,6 +70,13 @@ func (br *botRunner) OnTableAutoJoinActionRequested(fn TableAutoJoinActionReques
 }
 
 func (br *botRunner) UpdateTableState(table *pokertable.Table) error {
+
+	// A notification older than one already handled says nothing new (late or repeated delivery):
+	// acting on it would cancel the pending move in favour of a request that is long gone.
+	if table.UpdateSerial < br.lastUpdateSerial {
+		return nil
+	}
+	br.lastUpdateSerial = table.UpdateSerial
 
 	gs := table.State.GameState
 	//oldState := br.tableInfo.State
@@ -110,7 +118,11 @@ func (br *botRunner) UpdateTableState(table *pokertable.Table) error {
 		// New game
 		if gs.GameID != br.curGameID {
 			br.curGameID = gs.GameID
-		} else if br.lastGameStateTime >= gs.UpdatedAt {
+		}
+
+		// (also for a state of another hand: a late notification of the previous hand must not be
+		// taken for a new one - hand states carry nanosecond timestamps that grow across hands)
+		if br.lastGameStateTime >= gs.UpdatedAt {
 			// Ignore if game state is too old
 			//fmt.Println(br.playerID, table.ID)
 			// fmt.Printf("[DEBUG#botRunner#UpdateTableState] [2] No reaction required since lastGameStateTime >= currentGameStateTime. Bot PlayerID: %s, TableID: %s\n", br.playerID, table.ID)
